@@ -227,33 +227,58 @@ def run_chain(c):
     return r
 
 
-def _alone_one(c):
-    return jsonable(run_impl(c))
+def _fix(r):
+    r = list(r)
+    if r[0] == 'ok': r[1] = {int(k): v for k, v in r[1].items()}
+    return tuple(r)
 
 
-def _alone_main():
-    """child process: solve every case read from stdin ALONE, each in its own process forked from this one before anything was solved."""
+def _isolated_one(job):
+    """runs in a process forked from a parent that has imported the library but never solved anything.
+    ('alone', c): solve c, nothing else. ('session', c, seed): what a replay of c does - solve c['prior'] and then c in this process, then the oracle on c."""
+    import random
+    if job[0] == 'alone':
+        return jsonable(run_impl(job[1]))
+    _, c, seed = job
+    r = run_chain(c) if c.get('prior') else run_impl(c)
+    bad = oracle(None, c, r, random.Random(seed)) if r[0] == 'ok' and not c.get('malformed') else []
+    return jsonable([r, bad])
+
+
+def _isolated_main():
     import multiprocessing as mp
     import scipy.stats, stockpyl.ssm_serial, stockpyl.supply_chain_network, stockpyl.newsvendor      # imports only - no solve before the fork
-    cases = json.load(sys.stdin)
-    with mp.get_context('fork').Pool(min(8, max(1, len(cases))), maxtasksperchild=1) as pool:
-        out = pool.map(_alone_one, cases, chunksize=1)
-    print('@@ALONE@@' + json.dumps(out))
+    jobs = json.load(sys.stdin)
+    with mp.get_context('fork').Pool(min(8, max(1, len(jobs))), maxtasksperchild=1) as pool:
+        out = pool.map(_isolated_one, jobs, chunksize=1)
+    print('@@ISOLATED@@' + json.dumps(out))
+
+
+def start_isolated(jobs):
+    """every job in a process of its own (see _isolated_one); returns a handle for collect_isolated (the work runs concurrently with the caller)."""
+    if not jobs: return None
+    pr = subprocess.Popen([sys.executable, '-c', 'import props.c07 as m; m._isolated_main()'], stdin=subprocess.PIPE, stdout=subprocess.PIPE,
+                          stderr=subprocess.PIPE, text=True, cwd=os.path.dirname(os.path.dirname(os.path.abspath(__file__))))
+    import threading
+    box = {}
+    def pump(): box['out'], box['err'] = pr.communicate(json.dumps(jsonable(jobs)))
+    th = threading.Thread(target=pump); th.start()
+    return (th, box)
+
+
+def collect_isolated(handle):
+    if handle is None: return []
+    th, box = handle
+    th.join(3000)
+    for line in (box.get('out') or '').split('\n'):
+        if line.startswith('@@ISOLATED@@'):
+            return json.loads(line[len('@@ISOLATED@@'):])
+    raise RuntimeError('isolated runs: child failed: %s' % ((box.get('err') or '')[-400:],))
 
 
 def solve_alone(cases):
     """result of run_impl for each case when it is the only instance ever solved in its process."""
-    if not cases: return []
-    pr = subprocess.run([sys.executable, '-c', 'import props.c07 as m; m._alone_main()'], input=json.dumps(jsonable(cases)), capture_output=True,
-                        text=True, timeout=1800, cwd=os.path.dirname(os.path.dirname(os.path.abspath(__file__))))
-    for line in pr.stdout.split('\n'):
-        if line.startswith('@@ALONE@@'):
-            out = []
-            for r in json.loads(line[len('@@ALONE@@'):]):
-                if r[0] == 'ok': r[1] = {int(k): v for k, v in r[1].items()}
-                out.append(tuple(r))
-            return out
-    raise RuntimeError('solve_alone: child failed: %s' % (pr.stderr[-400:],))
+    return [_fix(r) for r in collect_isolated(start_isolated([['alone', c] for c in cases]))]
 
 
 def history_diff(c, r, alone):
@@ -547,18 +572,20 @@ def explore(chk, n, nmax, do_model=True, n_normal=0, n_malformed=0, n_chains=0):
     rng = chk.rng
     cases = [gen_case(rng, nmax) for _ in range(n)] + [gen_case(rng, min(nmax, 3), kinds=('N',)) for _ in range(n_normal)] \
         + [gen_malformed(rng) for _ in range(n_malformed)]
+    first_chain = len(cases)
     for _ in range(n_chains): cases += gen_chain(rng, min(nmax, 3))
-    impl = []; ds_cur = None
-    for c in cases:      # the instances of a chain are adjacent in `cases`: solving them in list order IS the session (same effect as run_chain, no re-solve)
-        if c.get('reuse_ds'):
-            if not c.get('prior'): ds_cur = make_ds(c['dem'])
-            else: mutate_ds(ds_cur, c['dem'])
-            impl.append(run_impl(c, ds_obj=ds_cur, form='params'))
-        else:
-            impl.append(run_impl(c))
-    # every instance of a session must get the result it gets when solved alone in a fresh process
-    sess = [i for i, c in enumerate(cases) if c.get('prior')]
-    alone = dict(zip(sess, solve_alone([cases[i] for i in sess])))
+    # session stream: every instance of a chain is handled by a process of its own that does exactly what a replay of the case does (solve its
+    # predecessors, then the instance, then the oracle) - so a finding there is reproducible by construction, and this process (regular stream) never
+    # solves a chain instance. The in-session result must equal the result of solving the instance alone in a fresh process.
+    for c in cases[first_chain:]: c['oracle_seed'] = rng.randrange(2 ** 31)
+    sess = [i for i in range(first_chain, len(cases)) if cases[i].get('prior')]
+    handle = start_isolated([['session', c, c['oracle_seed']] for c in cases[first_chain:]] + [['alone', cases[i]] for i in sess])
+    impl = [run_impl(c) for c in cases[:first_chain]]
+    iso = collect_isolated(handle)
+    sess_out = [(_fix(r), [tuple(b) for b in bad]) for r, bad in iso[:len(cases) - first_chain]]
+    impl += [r for r, _ in sess_out]
+    pre_oracle = {first_chain + k: bad for k, (_, bad) in enumerate(sess_out)}
+    alone = dict(zip(sess, [_fix(r) for r in iso[len(cases) - first_chain:]]))
     # model: optimisation run for every discrete case, plus an evaluation-mode run (levels perturbed, or very low) for every third
     exprs = []; slots = []
     if do_model:
@@ -566,7 +593,7 @@ def explore(chk, n, nmax, do_model=True, n_normal=0, n_malformed=0, n_chains=0):
             if c['malformed'] or c['dem']['kind'] == 'N' or r[0] != 'ok': continue
             tb = tables(c)
             exprs.append(model_expr(c, tb)); slots.append((i, 'opt', tb, None))
-            if i % 3 == 0:
+            if i % 3 == 0 and i < first_chain:
                 Sr = {j: max(0, r[1][j] + rng.randint(-3, 3)) for j in r[1]}
                 if i % 6 == 3: Sr = {j: tb['x_lo'] + rng.randint(0, 6) for j in r[1]}      # low levels: continuation below the grid matters
                 tb2 = tables(c, S_max=max(Sr.values()))
@@ -597,7 +624,7 @@ def explore(chk, n, nmax, do_model=True, n_normal=0, n_malformed=0, n_chains=0):
         if r[0] == 'err':
             chk.fail('optimize_base_stock_levels|%s-demand|raises-%s' % (kind, r[1]), 'valid input raises %s: %s' % (r[1], r[2]), c)
             chk.case(c, False); continue
-        for sig, what in oracle(chk, c, r, rng):
+        for sig, what in (pre_oracle[i] if i in pre_oracle else oracle(chk, c, r, rng)):
             chk.fail(sig, what, c)
         lv = r[1]
         nontriv = False
@@ -671,7 +698,7 @@ def replay(chk, rp):
     elif r[0] == 'err':
         chk.fail('optimize_base_stock_levels|%s-demand|raises-%s' % (c['dem']['kind'], r[1]), r[2], c)
     else:
-        for seed in range(3):
+        for seed in ([c['oracle_seed']] if 'oracle_seed' in c else []) + list(range(3)):
             for sig, what in oracle(chk, c, r, random.Random(seed)):
                 chk.fail(sig, what, c)
     chk.case(c)
